@@ -88,3 +88,12 @@ func init() {
 		c.Explain += " Also imports C35's VoteSet tally rules (sum-distinct, vote-admission, quorum-form): the consensus state machine's +2/3 tests are only as sound as those tallies."
 	})
 }
+
+func init() {
+	mutants("C32",
+		Mutant{"commit-tally-any-non-nil-block", "tm2/pkg/bft/types/validator_set.go", "\t\tif blockID.Equals(precommit.BlockID) {\n\t\t\ttalliedVotingPower += val.VotingPower\n\t\t}", "\t\tif !precommit.BlockID.IsZero() {\n\t\t\ttalliedVotingPower += val.VotingPower\n\t\t}", "guarded-tally"},
+	)
+	mutants("C31",
+		Mutant{"blockvotes-double-count", "tm2/pkg/bft/types/vote_set.go", "	if existing := vs.votes[valIndex]; existing == nil {\n\t\tvs.bitArray.SetIndex(valIndex, true)\n\t\tvs.votes[valIndex] = vote\n\t\tvs.sum += votingPower\n\t}", "	vs.bitArray.SetIndex(valIndex, true)\n\tvs.votes[valIndex] = vote\n\tvs.sum += votingPower", "sum-distinct"},
+	)
+}
